@@ -321,12 +321,77 @@ def problems():
         pool.shutdown(wait=False)
 
     asyncio.run(main())
+    out.extend(reused_wrappers())
+    return out
+
+
+def reused_wrappers():
+    """One wrapper object serves every call: from several tasks at once and from one event loop after another (a decorated
+    module-level function outlives any single `asyncio.run`)."""
+    out = []
+
+    @asynchronous
+    def double(x):
+        return (x * 2, threading.get_ident())
+
+    class Box:
+        def __init__(self, tag):
+            self.tag = tag
+
+        @asynchronous
+        def get(self, x):
+            return (self.tag, x)
+
+    @traced
+    async def traced_double(x):
+        return x * 2
+
+    wrapped = wrap_async(lambda x: x + 1)
+    box = Box("b")
+
+    async def round_(label):
+        loop_thread = threading.get_ident()
+        try:
+            async with ctx.scope(label):
+                rs = await asyncio.gather(*[double(i) for i in range(3)], box.get(5), wrapped(1), traced_double(4))
+        except BaseException as e:  # noqa
+            out.append(f"reused wrappers, {label}: calls raised {e!r}")
+            return
+        if [r[0] for r in rs[:3]] != [0, 2, 4] or any(r[1] == loop_thread for r in rs[:3]):
+            out.append(f"reused wrappers, {label}: concurrent calls through one @asynchronous wrapper gave {rs[:3]}")
+        if rs[3:] != [("b", 5), 2, 8]:
+            out.append(f"reused wrappers, {label}: {rs[3:]}")
+    for label in ("first event loop", "second event loop", "third event loop"):
+        try:
+            asyncio.run(round_(label))
+        except BaseException as e:  # noqa
+            out.append(f"reused wrappers, {label}: {e!r}")
     return out
 
 
 def main():
     sys.stdin.read()
     p = problems()
+    if not p:
+        from mimic_frame import own_state_problems
+        from haiway import asynchronous as _asynchronous
+        from haiway.utils.mimic import mimic_function as _mimic
+
+        class _Holder:          # a wrapper object with falsy and truthy state of its own, as the helper decorators have
+            def __init__(self, f):
+                self._function = f
+                self._entries = []
+                self._count = 0
+                self._flag = False
+                self._label = ""
+                self._limit = 3
+                _mimic(f, within=self)
+
+            def __call__(self, *args, **kwargs):
+                return self._function(*args, **kwargs)
+        q = own_state_problems(lambda f: _asynchronous(f), False, "asynchronous") \
+            or own_state_problems(_Holder, False, "mimic_function(within=object)")
+        p = [q] if q else p
     if p:
         print(json.dumps(dict(reproduced=True, detail=dict(problems=p[:5]), cases_tried=1)))
     else:
